@@ -10,35 +10,41 @@ EX = "exploration"
 
 # id -> (level, technique, text, note, design_ref)
 CHECKS = {
- "C02": (MC, "TLA+ rounding oracle (Exact/MpfPost) model-checked in small scope + TLC trace validation of recorded calls on limb integers",
+ "C02": (MC, "TLA+ rounding oracle (Exact/MpfPost) model-checked in small scope + TLC exhaustive model of the transcribed libmp algorithms (MpfMachine, Algo => Post) with every transition replayed on the real functions + TLC trace validation of recorded calls on limb integers",
          "RoundingLemmas (TLC, exhaustive small universe) ties the checker/functional forms of the rounding oracle together; "
          "every recorded call of add/sub/mul/div/sqrt/neg/abs/pos/constructors/fsum/fdot through four entry levels is judged by TLC "
-         "against MpfPost in exact limb arithmetic (total verdicts).",
+         "against MpfPost in exact limb arithmetic (total verdicts). MpfMachine (TLC, exhaustive): transcribed _normalize/mpf_add/mpf_mul/mpf_div equal the correctly rounded exact result "
+         "for every operand pair, precision and mode of a miniature universe (scaled constants on native ints; real constants on limbs with exponents astride the far threshold); each transition is replayed on the real function (identical tuple).",
          "Trusted: TLC evaluator, CommunityModules Json, ZLimb (refinement-checked by ZLimbCheck), the recorder's encoder. "
          "Exponents beyond 2^30 are not encoded. Sampling at real sizes is seeded, not exhaustive.", "DESIGN.md §4 C02"),
 }
 
 TRACE_NOTE = ("Trusted: TLC evaluator, CommunityModules Json, ZLimb (refinement-checked by ZLimbCheck), the recorder's encoder. "
               "Exponents beyond 2^30 are not encoded. Sampling at real sizes is seeded, not exhaustive.")
+MACH_TECH = ("; TLC exhaustive model of the transcribed libmp algorithms (MpfMachine: Algo => Post over a miniature float universe, scaled and real constants) "
+             "with every model transition replayed on the real functions")
+MACH_TEXT = (" MpfMachine (TLC, exhaustive): the transcribed _normalize/mpf_add/mpf_mul/mpf_div/mpf_mod/mpf_cmp meet the postcondition for every operand pair, "
+             "precision and mode of a miniature universe, with the code's shortcut constants scaled (native ints) and real (limbs, exponents astride 100); "
+             "every printed transition is replayed on the real libmp function and must return the identical tuple.")
 TRACE_TECH = "TLC trace validation of recorded calls against the TLA+ postconditions (MpfPost) in exact limb arithmetic"
 CHECKS.update({
- "C01": (EX, TRACE_TECH + "; invariant Canonical on every outcome component",
-         "Every real component of every outcome of the pooled arithmetic corpus is judged canonical by TLC (spec/Exact.tla Canonical).",
+ "C01": (MC, TRACE_TECH + "; invariant Canonical on every outcome component" + MACH_TECH,
+         "Every real component of every outcome of the pooled arithmetic corpus is judged canonical by TLC (spec/Exact.tla Canonical)." + MACH_TEXT,
          TRACE_NOTE, "DESIGN.md §4 C01"),
  "C03": (EX, TRACE_TECH + " (PostPowInt: exact power on limbs, side / 1-ulp / exactness clauses)",
          "x**n events (libmp, ** operator, power()) judged by TLC against the exact power computed on limbs.",
          TRACE_NOTE + " Exact powers limited to 15000 bits.", "DESIGN.md §4 C03"),
- "C05": (EX, TRACE_TECH + " (exact dyadic comparison; equal => equal hash)",
-         "Comparison and hash events (mpf vs mpf/int/float, all six relations) judged by TLC against exact comparison.",
+ "C05": (MC, TRACE_TECH + " (exact dyadic comparison; equal => equal hash)" + MACH_TECH,
+         "Comparison and hash events (mpf vs mpf/int/float, all six relations) judged by TLC against exact comparison." + MACH_TEXT + " (The hash rule is covered by the trace part only.)",
          TRACE_NOTE, "DESIGN.md §4 C05"),
- "C06": (EX, TRACE_TECH + " (integer-part definitions; modulo with verified quotient witness)",
-         "floor/ceil/nint/frac/int()/mod events judged by TLC; the quotient of x mod y is an untrusted witness verified exactly by the spec.",
+ "C06": (MC, TRACE_TECH + " (integer-part definitions; modulo with verified quotient witness)" + MACH_TECH,
+         "floor/ceil/nint/frac/int()/mod events judged by TLC; the quotient of x mod y is an untrusted witness verified exactly by the spec." + MACH_TEXT + " (The model covers mpf_mod; the integer-part functions are covered by the trace part only.)",
          TRACE_NOTE + " x mod 0 is outside the statement and not judged.", "DESIGN.md §4 C06"),
  "C09": (EX, TRACE_TECH + " (IEEE double geometry F64Val / PostToFloat)",
          "float(x) and mpf(float) events judged by TLC against the double geometry defined in the spec.",
          TRACE_NOTE + " Subnormal results are outside the statement and not judged.", "DESIGN.md §4 C09"),
- "C10": (EX, TRACE_TECH + "; invariant BitsLe(component, precision) on every rounded-class outcome",
-         "Every real component of every rounded-class outcome of the pooled corpus is judged by TLC to have at most prec bits.",
+ "C10": (MC, TRACE_TECH + "; invariant BitsLe(component, precision) on every rounded-class outcome" + MACH_TECH,
+         "Every real component of every rounded-class outcome of the pooled corpus is judged by TLC to have at most prec bits." + MACH_TEXT,
          TRACE_NOTE, "DESIGN.md §4 C10"),
  "C39": (EX, TRACE_TECH + " (PostMag/PostFrexp/PostLdexp/PostIsInt/PostNintDistance)",
          "mag/frexp/ldexp/isint/nint_distance events judged by TLC against their exact definitions.",
